@@ -163,10 +163,12 @@ def run(ctx) -> None:
 
     # ---------------------------------------------------------------- R3 (parse module)
     im = prog.function("parse.iter_matches")
-    ifp = prog.function("parse._iter_for_pattern")
+    # the per-pattern line search is a generator of its own in the pinned tree; merged into iter_matches it is the inner loop
+    merged = not prog.has_function("parse._iter_for_pattern")
+    ifp = im if merged else prog.function("parse._iter_for_pattern")
     ho = prog.function("parse._has_overlap")
     ctx.visit(im.fq, ifp.fq, ho.fq)
-    for fn in (im, ifp):
+    for fn in ((im,) if merged else (im, ifp)):
         bad = [n for n in walk_no_nested(fn.node) if isinstance(n, (ast.Break, ast.Return)) and not (isinstance(n, ast.Return) and n.value is None and False)]
         ctx.check("R3", not bad, f"{fn.fq}: no break / early return in the enumeration",
                   f"{fn.fq}: enumeration can stop early", f"{[unparse(b) for b in bad]}", loc=fn.loc(bad[0]) if bad else fn.loc())
@@ -176,14 +178,18 @@ def run(ctx) -> None:
     outer, inner = sorted(loops, key=lambda l: l.lineno)
     ctx.check("R3", unparse(outer.iter) == im.params[1], f"iter_matches: outer loop over all of `{im.params[1]}`",
               "parse.iter_matches: not all patterns are enumerated", f"`for ... in {unparse(outer.iter)}`", loc=im.loc(outer))
-    in_ok = isinstance(inner.iter, ast.Call) and [unparse(a) for a in inner.iter.args] == [im.params[0], unparse(outer.target)]
-    ctx.check("R3", in_ok, "iter_matches: inner loop over _iter_for_pattern(lines, pattern)",
+    if merged:
+        in_ok = unparse(inner.iter) == f"enumerate({im.params[0]})"
+        l2 = [inner]
+    else:
+        in_ok = isinstance(inner.iter, ast.Call) and [unparse(a) for a in inner.iter.args] == [im.params[0], unparse(outer.target)]
+        l2 = [n for n in walk_no_nested(ifp.node) if isinstance(n, ast.For)]
+    ctx.check("R3", in_ok, "iter_matches: inner loop over all lines for the pattern",
               "parse.iter_matches: inner enumeration does not cover all lines for the pattern", f"`{unparse(inner.iter)}`", loc=im.loc(inner))
-    l2 = [n for n in walk_no_nested(ifp.node) if isinstance(n, ast.For)]
     ctx.require(len(l2) == 1, "parse._iter_for_pattern loop shape changed")
     it_txt = unparse(l2[0].iter)
-    ctx.check("R3", it_txt in (f"enumerate({ifp.params[0]})",), f"_iter_for_pattern: loop over enumerate({ifp.params[0]}) (every line, zero based)",
-              "parse._iter_for_pattern: not every line is searched", f"`for ... in {it_txt}`", loc=ifp.loc(l2[0]))
+    ctx.check("R3", it_txt in (f"enumerate({ifp.params[0]})",), f"{ifp.name}: loop over enumerate({ifp.params[0]}) (every line, zero based)",
+              f"parse.{ifp.name}: not every line is searched", f"`for ... in {it_txt}`", loc=ifp.loc(l2[0]))
     # yield only suppressed by overlap
     ys = [n for n in ast.walk(inner) if isinstance(n, ast.Yield)]
     ctx.require(len(ys) == 1, "iter_matches yield count changed")
@@ -192,13 +198,24 @@ def run(ctx) -> None:
     ynode = cfg.node_containing(ys[0])
     ycond = pc.reach(ynode).drop_unused()
 
+    search_vars = {unparse(tg) for _s, tg, v in shapes.iter_assigns(im.node) if isinstance(v, ast.Call) and isinstance(v.func, ast.Attribute) and v.func.attr == "search"}
+
     def ycls(leaf: ast.AST) -> T.Tuple[str, bool]:
         if isinstance(leaf, ast.Call) and unparse(leaf.func).endswith("_has_overlap"):
             return "OVERLAP", True
+        if merged and isinstance(leaf, ast.Name) and leaf.id in search_vars:
+            return "FOUND", True
+        cs_ = shapes.compare_shape(leaf)
+        if merged and cs_ and cs_[0] in (">", "!=") and isinstance(cs_[2], ast.Constant) and cs_[2].value == 0 and any(unparse(cs_[1]) == f"len({v_}.group(0))" for v_ in search_vars):
+            return "NONEMPTY", True
+        if merged and isinstance(leaf, ast.Call) and isinstance(leaf.func, ast.Attribute) and leaf.func.attr == "search" and unparse(leaf.func.value).endswith(".regexp"):
+            return "FOUND", True             # the search result, inlined
+        if merged and isinstance(leaf, ast.Call) and isinstance(leaf.func, ast.Attribute) and leaf.func.attr == "group" and (not leaf.args or unparse(leaf.args[0]) == "0"):
+            return "NONEMPTY", True          # norm_atom reads `len(x) > 0` as the truth of x
         raise AnalysisError(f"C03/R3: yield condition leaf not enumerated: {unparse(leaf)[:60]}")
     try:
         ysem = shapes.semantic_bf(ycond, im, ycls, prog)
-        y_ok = ysem.equiv(~BF.var("OVERLAP"))
+        y_ok = ysem.equiv(~BF.var("OVERLAP")) if not merged else ysem.equiv(BF.var("FOUND") & BF.var("NONEMPTY") & ~BF.var("OVERLAP"))
     except AnalysisError:
         ysem, y_ok = ycond, False
     ctx.check("R3", y_ok,
